@@ -1182,6 +1182,13 @@ def matrix_programs_c18():
         R = {"k": "ref", "slot": slot}
         up = {"f4": "f8", "f8": "c16", "c16": "c16", "c8": "c16"}[dt]  # an operand of a wider dtype: the product promotes
         e = [("to_dense", call("to_dense", A=S(slot))), ("flatten", call("flatten", A=S(slot))),
+             ("products_shapes", [call("matvec", A=S(slot), x=x), call("matvec", A=S(slot), x=X),
+                                  call("matvec", A=S(slot), x=arr([cols, 3], dt, 68)),
+                                  call("rmatvec", A=S(slot), x=xr), call("rmatvec", A=S(slot), x=arr([2, rows], dt, 69)),
+                                  call("rmatvec", A=S(slot), x=arr([3, rows], dt, 70)),
+                                  call("matvec", A=S(slot), x=arr([cols, rows], dt, 71)),
+                                  call("rmatvec", A=S(slot), x=arr([cols, rows], dt, 72)),
+                                  call("matvec", A=S(slot), x=arr([cols, rows], dt, 71))]),
              ("mv_promote", [call("matvec", A=S(slot), x=arr([cols, 2], up, 65)), call("matvec", A=S(slot), x=x),
                              call("rmatvec", A=S(slot), x=arr([rows], up, 66)),
                              mk("m_ann", {"k": "ann", "name": "Stiefel", "of": R}), call("matvec", A=S("m_ann"), x=arr([cols], up, 67))]),
